@@ -72,6 +72,7 @@ theorem C13_lin_history_complete {n : Nat} {as : List Action} {t : Nat} {op : Op
   | itNext it => exact absurd rfl hk
   | itClose it => exact absurd rfl hk
   | itInterval it m => exact absurd rfl hk
+  | itRefresh it => exact absurd rfl hk
 
 /-- SOUND: every entry of the history belongs to an accepted call entry `start t op` at position `en.s` with the
     entry's kind -/
